@@ -65,39 +65,56 @@ extern "C"
     }
     unsigned long ds_sizeof_pop_record() { return sizeof(pop_record); }
 
-    // layout facts used by the ctypes mirror of cell_item / config
-    unsigned long ds_sizeof_cell_item() { return sizeof(parsing::cell_item); }
-    unsigned long ds_offsetof_cell_item(int field)
+    // field access by name (no assumption about the layout of cell_item / config)
+    double ds_item_num(const parsing::cell_item *it, int field)
     {
         switch (field)
         {
-        case 0: return offsetof(parsing::cell_item, fin);
-        case 1: return offsetof(parsing::cell_item, cat);
-        case 2: return offsetof(parsing::cell_item, left);
-        case 3: return offsetof(parsing::cell_item, right);
-        case 4: return offsetof(parsing::cell_item, in_score);
-        case 5: return offsetof(parsing::cell_item, out_score);
-        case 6: return offsetof(parsing::cell_item, start_of_span);
-        case 7: return offsetof(parsing::cell_item, span_length);
-        case 8: return offsetof(parsing::cell_item, head_id);
-        case 9: return offsetof(parsing::cell_item, rule_id);
+        case 0: return it->fin ? 1.0 : 0.0;
+        case 1: return (double)it->cat;
+        case 4: return (double)it->in_score;
+        case 5: return (double)it->out_score;
+        case 6: return (double)it->start_of_span;
+        case 7: return (double)it->span_length;
+        case 8: return (double)it->head_id;
+        case 9: return (double)it->rule_id;
         }
-        return 9999;
+        return -1.0;
     }
-    unsigned long ds_sizeof_config() { return sizeof(config); }
-    unsigned long ds_offsetof_config(int field)
+    const void *ds_item_child(const parsing::cell_item *it, int which)
     {
+        return which == 0 ? (const void *)it->left : (const void *)it->right;
+    }
+    void *ds_config_new() { return new config(); }
+    void ds_config_free(void *c) { delete (config *)c; }
+    void ds_config_set(void *p, int field, double v)
+    {
+        config *c = (config *)p;
         switch (field)
         {
-        case 0: return offsetof(config, num_tags);
-        case 1: return offsetof(config, unary_penalty);
-        case 2: return offsetof(config, beta);
-        case 3: return offsetof(config, use_beta);
-        case 4: return offsetof(config, pruning_size);
-        case 5: return offsetof(config, nbest);
-        case 6: return offsetof(config, max_step);
+        case 0: c->num_tags = (unsigned)v; break;
+        case 1: c->unary_penalty = (float)v; break;
+        case 2: c->beta = (float)v; break;
+        case 3: c->use_beta = v != 0.0; break;
+        case 4: c->pruning_size = (unsigned)v; break;
+        case 5: c->nbest = (unsigned)v; break;
+        case 6: c->max_step = (unsigned)v; break;
         }
-        return 9999;
+    }
+    double ds_config_get(const void *p, int field)
+    {
+        const config *c = (const config *)p;
+        switch (field)
+        {
+        case 0: return (double)c->num_tags;
+        case 1: return (double)c->unary_penalty;
+        case 2: return (double)c->beta;
+        case 3: return c->use_beta ? 1.0 : 0.0;
+        case 4: return (double)c->pruning_size;
+        case 5: return (double)c->nbest;
+        case 6: return (double)c->max_step;
+        }
+        return -1.0;
     }
     float ds_item_score(parsing::cell_item *item) { return item->score(); }
     unsigned ds_uint_max() { return UINT_MAX; }
